@@ -78,6 +78,13 @@ func TestPropStopNotHeldUp(t *testing.T) {
 		if v := modsim.CheckC05(sc, res); v != nil {
 			t.Fatalf("C15-3-stop-held-up/%s\nscenario: %s\nevents:%s", v.Error(), b, modsim.RenderEvents(res.Events, 100))
 		}
+		// "every submitted microtask function is executed exactly once": also the ones submitted to a module that is not
+		// online - the child waits 20 s for each of them to begin
+		for _, e := range res.Events {
+			if e.Kind == "straddle-incomplete" {
+				t.Fatalf("C15-2-executed-once: a microtask submitted to module %s while it was not online (not started yet, or stopped by a management pass) had not begun 20 s later although the limit was free\nscenario: %s\nevents:%s", e.Mod, b, modsim.RenderEvents(res.Events, 100))
+			}
+		}
 		cls, running := modsim.C05Stats(sc, res)
 		classes := []string{fmt.Sprintf("stop_with_%d_microtasks_in_flight", min(running, 4))}
 		for _, c := range cls {
